@@ -1,4 +1,7 @@
 use crate::ops::RunDesc;
+pub fn gen(prop: &str, seed: u64, _stack: bool) -> RunDesc {
+    crate::gen::gen_interp_run(prop, "todo", seed, crate::gen::Profile::Ebr)
+}
 pub fn run(_desc: &RunDesc) -> ! {
     unimplemented!()
 }
